@@ -24,7 +24,7 @@ RULE = ('Cases: an ancestor with substitution sites >= 2k apart and >= 2k from t
 ASSUMPTIONS = ['the planted truth is the oracle; well-formedness is a direct predicate on the output',
                'union-of-samples uniqueness (DESIGN.md section 8); sites at least 2k from the sequence ends']
 REQUIRED = {t: ['mode:free', 'mode:ref', 'mode:wf', 'ref:ancestor', 'ref:revcomp', 'ref:sample', 'threads>1', 'jitter_runs',
-                'sites_called', 'multiallelic_sites', 'wf_columns_checked', 'vcf_records_checked', 'reference_with_N', 'runs_over_existing_output', 'reference_route:plain', 'reference_route:gz', 'reference_route:gz-multi', 'runs_of_four_allelic_sites', 'dotted_output_prefix', 'runs_with_-n_0', 'sites_k-1_from_the_ends', 'runs_with_-v'] for t in ('quick', 'thorough')}
+                'sites_called', 'multiallelic_sites', 'wf_columns_checked', 'vcf_records_checked', 'reference_with_N', 'runs_over_existing_output', 'reference_route:plain', 'reference_route:gz', 'reference_route:gz-multi', 'runs_of_four_allelic_sites', 'dotted_output_prefix', 'runs_with_-n_0', 'sites_k-1_from_the_ends', 'runs_with_-v', 'reference_crlf_wrapped'] for t in ('quick', 'thorough')}
 FREE_K = [7, 9, 11, 15, 17, 21, 31, 33]
 REF_K = [15, 17, 21, 31, 33]
 
@@ -263,6 +263,10 @@ def run_case(desc, ctx):
             w_ = rng.choice([0, 0, 60])
             txt = '>R\n%s\n' % ('\n'.join(refseq[i:i + w_] for i in range(0, len(refseq), w_)) if w_ else refseq)
             route = rng.choice(['plain', 'plain', 'gz', 'gz-multi'])
+            if desc['seed'] % 4 == 1:
+                # CRLF line endings: the carriage returns are not part of the sequence, coordinates must not move
+                txt = txt.replace('\n', '\r\n')
+                res.count('reference_crlf' + ('_wrapped' if w_ else ''))
             if route == 'plain':
                 refpath = ctx.write('ref.fa', txt)
             else:
